@@ -68,10 +68,10 @@ Site(intron, side, tstrand) ==
   [intron EXCEPT !.ftype = ty, !.start = IF side = "left" THEN intron.start ELSE intron.end - 1,
                  !.end = IF side = "left" THEN intron.start + 1 ELSE intron.end,
                  !.attrs = AttrSet(intron.attrs, T_ID, <<ty \o <<UNDER>> \o AttrGet(intron.attrs, T_ID)[1]>>)]
-Splice_Decl(db, gtype, etype) ==
+Splice_Decl(db, gtype, etype, numeric) ==
   FlatSeq([s \in 1..2 |-> FlatSeq([t \in 1..Len(Transcripts(db, gtype)) |->
       LET tr == Transcripts(db, gtype)[t]
-          ins == Inter_Decl(KidsByStart(db, tr.id, 1, etype), IntronCfg(FALSE, TRUE))
+          ins == Inter_Decl(KidsByStart(db, tr.id, 1, etype), IntronCfg(numeric, TRUE))
       IN [k \in 1..Len(ins) |-> Site(ins[k], IF s = 1 THEN "left" ELSE "right", tr.strand)]])])
 
 (***************************************************************************)
